@@ -19,6 +19,21 @@ MQ = "metrique"
 TS = "metrique_timesource"
 
 
+def acc_adts(F):
+    """the stopwatch's accumulator type, by shape: a two-variant enum of the crate, one variant holding the plain Option<Duration>, the
+    other a shared cell (its name and module are private details)"""
+    if not hasattr(F, "_acc_adts"):
+        out = set()
+        for d, a in F.adts.items():
+            if a["crate"] != MQ or len(a["variants"]) != 2:
+                continue
+            tys = [[f["ty"] for f in v["fields"]] for v in a["variants"]]
+            if any(t == ["core::option::Option<core::time::Duration>"] for t in tys) and any(len(t) == 1 and t[0].startswith(MQ + "::") for t in tys):
+                out.add(d)
+        F._acc_adts = out
+    return F._acc_adts
+
+
 def field_roles(F, adt_def):
     """field name -> role label, decided by the field's type (private field names may change, their types say what they are).
     Labels are the names the fields have today: start / self_time / timer / duration / time_source."""
@@ -34,7 +49,7 @@ def field_roles(F, adt_def):
                 out[f["name"]] = "time_source"
             elif "Instant" in ty:
                 out[f["name"]] = "start"
-            elif "MaybeGuardedDuration" in ty:
+            elif any(a_ in ty for a_ in acc_adts(F)):
                 out[f["name"]] = "timer" if is_guard else "duration"
             elif ty == "core::option::Option<core::time::Duration>":
                 out[f["name"]] = "self_time" if is_guard else "duration"
@@ -159,9 +174,37 @@ def run(ctx):
             e = effects(F, b)
             key = fnkey(b)
             ctx.check(("assign", ("self_time",)) in e, "R18.1", key + "#stores-span", loc(b), "stop_ref no longer stores the measured span in self_time (a second stop would re-measure)")
-            ctx.check(any(x[0] in ("call-in-closure", "call") and x[1] == "elapsed" for x in e), "R18.1", key + "#span-is-elapsed-since-start", loc(b), "stop_ref does not compute start.elapsed()")
-            # idempotent: on the Some(self_time) arm nothing is written
             span_fields = {n for n, r in field_roles(F, guards[role]).items() if r == "self_time"}
+            start_fields = {n for n, r in field_roles(F, guards[role]).items() if r == "start"}
+            # the decision may live in a pure private helper that is handed (start, stored span) and whose result is stored back:
+            # `self.self_time = resolve_span(self.start.as_ref(), self.self_time)`
+            prb = Prov(b, adapter_pred=lambda t: (t.get("callee") or {}).get("name") in ("as_ref", "deref", "as_mut", "clone"))
+            helper_el, helper_id = False, False
+            for c in b.calls():
+                for hb in local_callee_bodies(F, c):
+                    if hb.crate != MQ or hb.kind == "Closure":
+                        continue
+                    sp = [ai for ai, a in enumerate(c.args) if any(x[0] == "arg" and x[1] == 1 and x[2] and x[2][0] in span_fields for x in prb.operand(a))]
+                    stp = [ai for ai, a in enumerate(c.args) if any(x[0] == "arg" and x[1] == 1 and x[2] and x[2][0] in start_fields for x in prb.operand(a))]
+                    if not sp or not stp:
+                        continue
+                    he = effects(F, hb)
+                    helper_el = helper_el or any(x[0] in ("call-in-closure", "call") and x[1] == "elapsed" for x in he)
+                    hp = sp[0] + 1
+                    for i in hb.live_blocks():
+                        if hb.term(i)["k"] != "switch":
+                            continue
+                        if not any(s_["k"] == "assign" and s_["rv"]["k"] == "discr" and s_["rv"]["place"]["l"] == hp for s_ in hb.stmts(i)):
+                            continue
+                        tg = {v: tb for v, tb in hb.term(i)["targets"]}
+                        some_t = tg.get(1)
+                        if some_t is None:
+                            continue
+                        region = hb.reachable(some_t) - hb.reachable(tg.get(0, hb.term(i)["otherwise"]))
+                        if not [j for j in region if hb.term(j)["k"] == "call"] and any(x[0] == "arg" and x[1] == hp for x in Prov(hb).local(0)):
+                            helper_id = True
+            ctx.check(any(x[0] in ("call-in-closure", "call") and x[1] == "elapsed" for x in e) or helper_el, "R18.1", key + "#span-is-elapsed-since-start", loc(b), "stop_ref does not compute start.elapsed()")
+            # idempotent: on the Some(self_time) arm nothing is written
             sw = [i for i in b.live_blocks() if b.term(i)["k"] == "switch" and any(
                 s["k"] == "assign" and s["rv"]["k"] == "discr" and any(e2[0] == "f" and e2[2] in span_fields for e2 in s["rv"]["place"].get("p", [])) for s in b.stmts(i))]
             okid = False
@@ -173,7 +216,7 @@ def run(ctx):
                     writes = [j for j in region for s in b.stmts(j) if s["k"] == "assign" and s["lhs"]["l"] == 1 and s["lhs"].get("p")]
                     calls = [j for j in region if b.term(j)["k"] == "call"]
                     okid = not writes and not calls
-            ctx.check(okid, "R18.1", key + "#stop-idempotent", loc(b), "a stored span is not returned unchanged (repeated stops would change the result)")
+            ctx.check(okid or helper_id, "R18.1", key + "#stop-idempotent", loc(b), "a stored span is not returned unchanged (repeated stops would change the result)")
         b = ops.get((role, "drop"))
         if b:
             key = fnkey(b)
@@ -219,8 +262,25 @@ def run(ctx):
     for b in find(F, MQ, T + "Timer", "close", "CloseValue"):
         if b.locals[1]["ty"].startswith("&"):
             e = effects(F, b)
-            ctx.check(any(x[0] == "call" and x[1] in ("unwrap_or_else", "unwrap_or") and x[2] == ("duration",) for x in e) and any(x[1] == "elapsed" for x in e if x[0] in ("call", "call-in-closure")),
-                      "R18.1", fnkey(b) + "#stored-or-elapsed", loc(b), "Timer::close is not `stored duration or elapsed`")
+            form_a = any(x[0] == "call" and x[1] in ("unwrap_or_else", "unwrap_or") and x[2] == ("duration",) for x in e) and any(x[1] == "elapsed" for x in e if x[0] in ("call", "call-in-closure"))
+            # the same written as a match: the result is the stored duration or `start.elapsed()`, and the clock is read only when nothing is stored
+            pr = Prov(b)
+            ro = pr.local(0)
+            els = [c for c in b.calls() if c.name == "elapsed"]
+            form_b = any(x[0] == "arg" and x[2] and x[2][0] == "duration" for x in ro) and bool(els) and all(("call", c.bb) in ro for c in els)
+            if form_b:
+                some_ts = []
+                for i in b.live_blocks():
+                    t = b.term(i)
+                    if t["k"] != "switch":
+                        continue
+                    for st_ in b.stmts(i):
+                        if st_["k"] == "assign" and st_["rv"]["k"] == "discr" and any(e_[0] == "f" and e_[2] == "duration" for e_ in st_["rv"]["place"].get("p", [])):
+                            vm = {n: d for d, n in st_["rv"].get("variants", [])}
+                            tg = {v: tb for v, tb in t["targets"]}
+                            some_ts.append(tg.get(vm.get("Some"), t["otherwise"]))
+                form_b = bool(some_ts) and not any(c.bb in b.reachable(st) for st in some_ts for c in els)
+            ctx.check(form_a or form_b, "R18.1", fnkey(b) + "#stored-or-elapsed", loc(b), "Timer::close is not `stored duration or elapsed`")
     adds = [b for b in F.all_bodies(MQ) if b.name == "add_assign" and b.path.startswith("<" + T)]
     ctx.floor("R18.1", "duration add_assign implementations", len(adds), 2)
     sums = {}
@@ -242,13 +302,14 @@ def run(ctx):
             ctx.check(ea == eb, "R18.2", T + "TimerGuard~OwnedTimerGuard::" + nm + "#same-effects", loc(b),
                       "the owned and the borrowed timer guard disagree in `%s`: only-borrowed %s, only-owned %s" % (nm, sorted(ea - eb), sorted(eb - ea)),
                       "%d effects agree" % len(ea))
-    mgd = lambda b: b.impl and not b.impl.get("trait") and (b.impl.get("self_head") or {}).get("adt") == T + "MaybeGuardedDuration"
+    mgd = lambda b: b.impl and not b.impl.get("trait") and (b.impl.get("self_head") or {}).get("adt") in acc_adts(F)
     takes = [b for b in F.all_bodies(MQ) if mgd(b) and b.d.get("output") == "core::option::Option<core::time::Duration>" and (b.d.get("inputs") or [""])[0].startswith("&mut ")]
     ctx.floor("R18.2", "accumulator take operation", len(takes), 1)
     for b in takes:
         tk = [c for c in b.calls() if c.name == "take" and "Option" in c.def_]
         ctx.check(len(tk) == 2, "R18.2", fnkey(b) + "#both-representations-take", loc(b), "MaybeGuardedDuration::take does not take() in both representations (found %d)" % len(tk))
-    sc = [b for b in F.all_bodies(MQ) if mgd(b) and "SharedDuration" in (b.d.get("output") or "") and (b.d.get("inputs") or [""])[0].startswith("&mut ")]
+    shared_tys = {f["ty"] for d_ in acc_adts(F) for v in F.adts[d_]["variants"] for f in v["fields"] if f["ty"].startswith(MQ + "::")}
+    sc = [b for b in F.all_bodies(MQ) if mgd(b) and (b.d.get("output") or "") in shared_tys and (b.d.get("inputs") or [""])[0].startswith("&mut ")]
     ctx.floor("R18.2", "representation switch", len(sc), 1)
     for b in sc:
         pr = Prov(b)
